@@ -14,7 +14,10 @@
 //	            from type {StatusList2021Entry, unknown} x purpose {revocation, suspension} x list {issuer's managed
 //	            page ending at the page boundary, the issuer's next page, an external list of the same issuer, a
 //	            managed list of ANOTHER issuer} x bit {clear, set}; several entries on one list use different indexes;
-//	            k = 1 as object and as array of one; identical duplicates
+//	            k = 1 as object and as array of one; identical duplicates; JSON-LD credentials, and for k = 1 (k = 2:
+//	            reduced alphabet, thorough: full product) the same credential in the JWT format
+//	history     all lists clear -> every credential verifies (vacuity guard) -> the issuers set the bits, 16 minutes ->
+//	            every path judged -> 16 minutes -> what had to be refused is refused still
 //	paths       revocation verifier directly (both nodes), verifier.Verify with status checks (both nodes), VP
 //	            verification on node V (JSON-LD and JWT presentation) carrying the credential
 //	nuts-mix    credentials of a did:nuts issuer with status entries AND a network revocation, before / after the
@@ -1133,8 +1136,8 @@ func TestVerifC11Entries(t *testing.T) {
 	defer r.Finish()
 	r.Rule("credentials built by the harness and signed by the issuer, whose credentialStatus carries k = 1, 2 (full product) or 3 (reduced alphabet) entries in every position order, each entry from " +
 		"type {StatusList2021Entry, unknown} x purpose {revocation, suspension} x list {issuer's managed page up to its last slot, issuer's next page from slot 0, external list of the same issuer over the HTTP seam, managed list of another issuer} x bit {clear, set} " +
-		"(+ suspension list, unknown type without members, k = 1 as object / array, identical duplicates); all lists start clear, every credential is verified on both nodes (must verify), then the issuers set the bits (real Revoke / new external list), 16 minutes pass, and " +
-		"every credential goes through: status verifier directly on both nodes, verifier.Verify on both nodes, VerifyVP on node V in a JSON-LD and a JWT presentation. Reference: refused iff >= 1 entry of type StatusList2021Entry, purpose revocation, on a list of the credential's issuer has its bit set (only revoked => refused and not-honoured => not revoked are judged). " +
+		"(+ suspension list, unknown type without members, k = 1 as object / array, identical duplicates; JSON-LD credentials, k = 1 and a reduced k = 2 also as JWT credentials - thorough: every k <= 2); all lists start clear, every credential is verified on both nodes (must verify), then the issuers set the bits (real Revoke / new external list), 16 minutes pass, and " +
+		"every credential goes through: status verifier directly on both nodes, verifier.Verify on both nodes, VerifyVP on node V in a JSON-LD and a JWT presentation; another 16 minutes later what had to be refused must be refused still. Reference: refused iff >= 1 entry of type StatusList2021Entry, purpose revocation, on a list of the credential's issuer has its bit set (only revoked => refused and not-honoured => not revoked are judged). " +
 		"Plus: did:nuts credentials with 0-2 entries and a network revocation (before / after delivery); presentations of two credentials over 8 kinds in every ordered pair x 2 formats; 19 spellings of one index x 2 slots; status lists with 1-2 credentialSubjects over id x purpose x bit in every order; an entry that cannot be evaluated before / after an entry whose bit is set")
 	r.Assume("the harness plays the issuer when it builds credentials with several status entries (the node's own issuer never emits more than one); DID resolution is a static table; both nodes share the virtual clock")
 
